@@ -201,6 +201,20 @@ let run_transclude line =
      | Ok (out, st) -> String.concat " " (hex_of_bytes out :: List.map hex_of_bytes st.manifest) ^ (if st.cyc then " !" else ""))
   | _ -> "?"
 
+(* ---------- metadata: "Q <hexsrc> <hexkey>" -> has end keys value *)
+let run_meta line =
+  match split_on ' ' line with
+  | ["Q"; h; k] ->
+    let s = bytes_of_hex h and key = bytes_of_hex k in
+    let ws = is_whitespace_or_line_ending in
+    (match meta_parse ws s with
+     | None -> "0 0 - NULL"
+     | Some (ms, e) ->
+       let keys = List.concat (List.map (fun m -> m.m_key @ [n_of_int 10]) ms) in
+       let v = match meta_value_for ws s key with Some v -> hex_of_bytes v | None -> "NULL" in
+       Printf.sprintf "1 %d %s %s" (int_of_nat e) (hex_of_bytes keys) v)
+  | _ -> "?"
+
 let () =
   let model = Sys.argv.(1) in
   let f = match model with
@@ -211,6 +225,7 @@ let () =
     | "tree" -> run_tree
     | "bytes" -> run_bytes
     | "transclude" -> run_transclude
+    | "meta" -> run_meta
     | _ -> failwith "unknown model" in
   try while true do
     let line = input_line stdin in
